@@ -801,3 +801,763 @@ Proof.
   intros x. rewrite <- (bc_value_zero x). apply is_lim_continuity.
   apply continuity_pt_filterlim. apply boxcox_continuous_at_zero.
 Qed.
+
+(* ================================================================== distributions.py *)
+Definition k_sqrt2pi : R := D2R c_sqrt2pi.       (* the double 2.506628275 *)
+Definition k_halflog2pi : R := D2R c_halflog2pi. (* the double 0.9189385332 *)
+
+Lemma k_sqrt2pi_close : Rabs (k_sqrt2pi - sqrt (2 * PI)) <= 4 / 10 ^ 10.
+Proof. unfold k_sqrt2pi, D2R, c_sqrt2pi; cbn [fst snd]. interval with (i_prec 80). Qed.
+Lemma k_sqrt2pi_ratio : Rabs (sqrt (2 * PI) / k_sqrt2pi - 1) <= 2 / 10 ^ 10.
+Proof. unfold k_sqrt2pi, D2R, c_sqrt2pi; cbn [fst snd]. interval with (i_prec 80). Qed.
+Lemma k_sqrt2pi_pos : 0 < k_sqrt2pi.
+Proof. unfold k_sqrt2pi, D2R, c_sqrt2pi; cbn [fst snd]. interval. Qed.
+Lemma k_halflog2pi_close : Rabs (k_halflog2pi - ln (2 * PI) / 2) <= 1 / 10 ^ 11.
+Proof. unfold k_halflog2pi, D2R, c_halflog2pi; cbn [fst snd]. interval with (i_prec 80). Qed.
+Lemma sqrt2pi_pos : 0 < sqrt (2 * PI).
+Proof. interval. Qed.
+
+(* the normal density written with an arbitrary normalising constant c *)
+Definition npdf_c (c m s x : R) : R := exp (- (x - m) * (x - m) / (2 * s * s)) / (s * c).
+Definition normal_density (m s x : R) : R :=
+  1 / (s * sqrt (2 * PI)) * exp (- ((x - m) ^ 2 / (2 * s ^ 2))).
+Definition lognormal_density (m s x : R) : R :=
+  if Rlt_dec 0 x then 1 / (x * s * sqrt (2 * PI)) * exp (- ((ln x - m) ^ 2 / (2 * s ^ 2))) else 0.
+Definition uniform_density (a b x : R) : R :=
+  if Rle_dec a x then (if Rle_dec x b then 1 / (b - a) else 0) else 0.
+Definition triangular_density (a b c x : R) : R :=
+  if Rlt_dec x a then 0
+  else if Rlt_dec x c then 2 * (x - a) / ((b - a) * (c - a))
+  else if Req_EM_T x c then 2 / (b - a)
+  else if Rle_dec x b then 2 * (b - x) / ((b - a) * (b - c))
+  else 0.
+Definition logistic_cdf (m s x : R) : R := 1 / (1 + exp (- (x - m) / s)).
+Definition logistic_density (m s x : R) : R :=
+  exp (- (x - m) / s) / (s * (1 + exp (- (x - m) / s)) ^ 2).
+
+Lemma npdf_textbook : forall m s x, s <> 0 -> npdf_c (sqrt (2 * PI)) m s x = normal_density m s x.
+Proof.
+  intros m s x Hs. pose proof sqrt2pi_pos. unfold npdf_c, normal_density.
+  replace (- (x - m) * (x - m) / (2 * s * s)) with (- ((x - m) ^ 2 / (2 * s ^ 2))) by (field; assumption).
+  field. split; lra.
+Qed.
+
+Lemma npdf_c_ratio : forall c m s x, s <> 0 -> c <> 0 ->
+  npdf_c c m s x = normal_density m s x * (sqrt (2 * PI) / c).
+Proof.
+  intros c m s x Hs Hc. pose proof sqrt2pi_pos. rewrite <- npdf_textbook by assumption.
+  unfold npdf_c. field. repeat split; lra.
+Qed.
+
+Lemma normal_density_pos : forall m s x, 0 < s -> 0 < normal_density m s x.
+Proof.
+  intros m s x Hs. pose proof sqrt2pi_pos. unfold normal_density.
+  apply Rmult_lt_0_compat; [|apply exp_pos].
+  apply Rdiv_lt_0_compat; [lra|]. apply Rmult_lt_0_compat; assumption.
+Qed.
+
+(* the tree's constant instead of sqrt(2 pi) changes the density by at most 2e-10, relatively *)
+Lemma npdf_constant_error : forall m s x, 0 < s ->
+  Rabs (npdf_c k_sqrt2pi m s x - normal_density m s x) <= 2 / 10 ^ 10 * normal_density m s x.
+Proof.
+  intros m s x Hs. pose proof k_sqrt2pi_pos as KP. pose proof (normal_density_pos m s x Hs) as DP.
+  rewrite npdf_c_ratio by lra.
+  replace (normal_density m s x * (sqrt (2 * PI) / k_sqrt2pi) - normal_density m s x)
+    with (normal_density m s x * (sqrt (2 * PI) / k_sqrt2pi - 1)) by ring.
+  rewrite Rabs_mult, (Rabs_pos_eq (normal_density m s x)) by lra.
+  rewrite (Rmult_comm (2 / 10 ^ 10)). apply Rmult_le_compat_l; [lra|]. exact k_sqrt2pi_ratio.
+Qed.
+
+Lemma two_sq_nz : forall s, s <> 0 -> 2 * s * s <> 0.
+Proof.
+  intros s H E. apply H. assert (Q : s * s = 0) by lra.
+  destruct (Rmult_integral _ _ Q); assumption.
+Qed.
+
+Section Dist.
+  Variable Phi : R -> R.
+  Variable en : env.
+  Notation ev e := (evalX Phi e en) (only parsing).
+
+  Section Three.
+    Variables x mu s : expr.
+    Variables vx vm vs : R.
+    Hypothesis Hx : evalX Phi x en = XR vx.
+    Hypothesis Hm : evalX Phi mu en = XR vm.
+    Hypothesis Hs : evalX Phi s en = XR vs.
+
+    Lemma normalpdf_tree : vs <> 0 -> ev (normalpdf x mu s) = XR (npdf_c k_sqrt2pi vm vs vx).
+    Proof.
+      intros Hnz. pose proof k_sqrt2pi_pos as KP. unfold normalpdf. autorewrite with evx.
+      rewrite Hx, Hm, Hs. cbn [xbin xun lift1 lift2]. rewrite D2R_2.
+      assert (N1 : 2 * vs * vs <> 0) by (apply two_sq_nz; assumption).
+      rewrite (Rnz_true _ N1). cbn [xun].
+      assert (N2 : vs * D2R c_sqrt2pi <> 0).
+      { intro E; destruct (Rmult_integral _ _ E) as [E1|E1]; [contradiction|]. unfold k_sqrt2pi in KP. rewrite E1 in KP. exact (Rlt_irrefl _ KP). }
+      rewrite (Rnz_true _ N2). reflexivity.
+    Qed.
+
+    Lemma lognormalpdf_tree : 0 < vx -> vs <> 0 ->
+      ev (lognormalpdf x mu s) = XR (npdf_c k_sqrt2pi vm vs (ln vx) / vx).
+    Proof.
+      intros Hpos Hnz. pose proof k_sqrt2pi_pos as KP. unfold lognormalpdf. autorewrite with evx.
+      rewrite Hx, Hm, Hs. cbn [xun]. rewrite Rltb'_true by assumption.
+      cbn [xbin xun lift1 lift2]. rewrite D2R_2, D2R_0, Rltb'_true by assumption.
+      assert (N1 : 2 * vs * vs <> 0) by (apply two_sq_nz; assumption).
+      rewrite (Rnz_true _ N1). cbn [xun lift2 b2R].
+      assert (N2 : vx * vs * D2R c_sqrt2pi <> 0).
+      { intro E; destruct (Rmult_integral _ _ E) as [E1|E1].
+        - destruct (Rmult_integral _ _ E1); [lra|contradiction].
+        - unfold k_sqrt2pi in KP. rewrite E1 in KP. exact (Rlt_irrefl _ KP). }
+      rewrite (Rnz_true _ N2). f_equal. unfold npdf_c, k_sqrt2pi. field.
+      unfold k_sqrt2pi in KP. repeat split; lra.
+    Qed.
+
+    Lemma logisticcdf_tree : vs <> 0 -> ev (logisticcdf x mu s) = XR (logistic_cdf vm vs vx).
+    Proof.
+      intros Hnz. unfold logisticcdf. autorewrite with evx. rewrite Hx, Hm, Hs.
+      cbn [xbin xun lift1 lift2]. rewrite (Rnz_true _ Hnz). cbn [xun lift2]. rewrite D2R_1.
+      assert (N : 1 + exp (- (vx - vm) / vs) <> 0) by (pose proof (exp_pos (- (vx - vm) / vs)); lra).
+      rewrite (Rnz_true _ N). reflexivity.
+    Qed.
+
+    (* loglikelihoodregression(meas = x, model = mu, sigma = s) *)
+    Lemma regression_tree : vs <> 0 ->
+      ev (loglikelihoodregression x mu s)
+      = XR (- ((vx - vm) / vs) ^ 2 / 2 - ln (vs ^ 2) / 2 - k_halflog2pi).
+    Proof.
+      intros Hnz. unfold loglikelihoodregression. autorewrite with evx. rewrite Hx, Hm, Hs.
+      cbn [xbin lift2]. rewrite (Rnz_true _ Hnz).
+      cbn [xpowc dyadic_is_int Z.leb Z.mul Z.pow Z.pow_pos Pos.iter Pos.mul Z.compare xun lift1].
+      assert (P : 0 < powerRZ vs 2).
+      { simpl. rewrite Rmult_1_r. destruct (Rdichotomy _ _ Hnz); nra. }
+      rewrite (Rltb'_true _ _ P). cbn [xbin lift2]. rewrite D2R_2. rewrite !Rnz_true by lra.
+      cbn [lift2]. reflexivity.
+    Qed.
+
+    Lemma likelihoodregression_tree : vs <> 0 ->
+      ev (likelihoodregression x mu s)
+      = XR (exp (- ((vx - vm) / vs) ^ 2 / 2 - ln (vs ^ 2) / 2 - k_halflog2pi)).
+    Proof.
+      intros Hnz. unfold likelihoodregression. rewrite ev_exp, regression_tree by assumption.
+      reflexivity.
+    Qed.
+  End Three.
+
+  Section Unif.
+    Variables x a b : expr.
+    Variables vx va vb : R.
+    Hypothesis Hx : evalX Phi x en = XR vx.
+    Hypothesis Ha : evalX Phi a en = XR va.
+    Hypothesis Hb : evalX Phi b en = XR vb.
+
+    Lemma uniformpdf_tree : vb <> va -> ev (uniformpdf x a b) = XR (uniform_density va vb vx).
+    Proof.
+      intros Hne. unfold uniformpdf. autorewrite with evx. rewrite Hx, Ha, Hb.
+      cbn [xbin lift2]. rewrite D2R_0. assert (N : vb - va <> 0) by lra. rewrite (Rnz_true _ N).
+      f_equal. unfold uniform_density, Rltb', Rleb'.
+      destruct (Rlt_dec vx va); destruct (Rlt_dec vb vx); destruct (Rle_dec va vx);
+        destruct (Rle_dec vx vb); simpl; try lra; field; lra.
+    Qed.
+  End Unif.
+
+  Section Tri.
+    Variables x a b c : expr.
+    Variables vx va vb vc : R.
+    Hypothesis Hx : evalX Phi x en = XR vx.
+    Hypothesis Ha : evalX Phi a en = XR va.
+    Hypothesis Hb : evalX Phi b en = XR vb.
+    Hypothesis Hc : evalX Phi c en = XR vc.
+
+    Lemma triangularpdf_tree : va < vc < vb ->
+      ev (triangularpdf x a b c) = XR (triangular_density va vb vc vx).
+    Proof.
+      intros Hord. unfold triangularpdf. rewrite ev_multsum. cbn [map].
+      autorewrite with evx. rewrite Hx, Ha, Hb, Hc.
+      cbn [xbin lift2]. rewrite D2R_0, D2R_2.
+      assert (N1 : (vb - va) * (vc - va) <> 0) by (apply Rmult_integral_contrapositive_currified; lra).
+      assert (N2 : vb - va <> 0) by lra.
+      assert (N3 : (vb - va) * (vb - vc) <> 0) by (apply Rmult_integral_contrapositive_currified; lra).
+      rewrite (Rnz_true _ N1), (Rnz_true _ N2), (Rnz_true _ N3).
+      unfold xsum. cbn [fold_right lift2]. f_equal.
+      unfold triangular_density, Rltb', Rleb', Reqb'.
+      destruct (Rlt_dec vx va); destruct (Rlt_dec vx vc); destruct (Rlt_dec vc vx);
+        destruct (Rlt_dec vb vx); destruct (Rle_dec va vx); destruct (Rle_dec vx vb);
+        destruct (Req_EM_T vx vc); simpl; try lra; field; lra.
+    Qed.
+  End Tri.
+End Dist.
+
+Lemma ln_sqrt' : forall y, 0 < y -> ln (sqrt y) = ln y / 2.
+Proof.
+  intros y Hy. assert (S : 0 < sqrt y) by (apply sqrt_lt_R0; assumption).
+  assert (E : ln y = ln (sqrt y) + ln (sqrt y)).
+  { rewrite <- ln_mult by assumption. rewrite sqrt_sqrt by lra. reflexivity. }
+  lra.
+Qed.
+
+(* T17h: the regression log likelihood is the log of the normal density (up to the rounding of
+   the constant 0.9189385332 ~ ln(2 pi)/2) *)
+Lemma regression_is_normal_logdensity : forall y m s, 0 < s ->
+  Rabs ((- ((y - m) / s) ^ 2 / 2 - ln (s ^ 2) / 2 - k_halflog2pi) - ln (normal_density m s y))
+  <= 1 / 10 ^ 11.
+Proof.
+  intros y m s Hs. pose proof sqrt2pi_pos as SP.
+  assert (E : ln (normal_density m s y) = - ln s - ln (2 * PI) / 2 - ((y - m) / s) ^ 2 / 2).
+  { unfold normal_density. rewrite ln_mult; [|apply Rdiv_lt_0_compat; [lra|apply Rmult_lt_0_compat; lra]|apply exp_pos].
+    rewrite ln_exp. unfold Rdiv at 1. rewrite Rmult_1_l, ln_Rinv by (apply Rmult_lt_0_compat; lra).
+    rewrite ln_mult by lra. rewrite ln_sqrt' by (apply Rmult_lt_0_compat; [lra|apply PI_RGT_0]).
+    field. lra. }
+  rewrite E. replace (ln (s ^ 2)) with (2 * ln s).
+  2:{ replace (s ^ 2) with (s * s) by ring. rewrite ln_mult by assumption. ring. }
+  match goal with |- Rabs ?t <= _ => replace t with (- (k_halflog2pi - ln (2 * PI) / 2)) by (field; lra) end.
+  rewrite Rabs_Ropp. exact k_halflog2pi_close.
+Qed.
+
+(* ================================================================== integrals and limits *)
+(* T17g (uniform): the density integrates to one over any interval containing [a, b] *)
+Lemma uniform_integrates_to_one : forall a b lo hi, a < b -> lo <= a -> b <= hi ->
+  is_RInt (uniform_density a b) lo hi 1.
+Proof.
+  intros a b lo hi Hab Hlo Hhi.
+  assert (I1 : is_RInt (uniform_density a b) lo a (scal (a - lo) 0)).
+  { apply is_RInt_ext with (f := fun _ => 0); [|apply @is_RInt_const].
+    intros x Hx. rewrite Rmin_left, Rmax_right in Hx by lra. unfold uniform_density.
+    destruct (Rle_dec a x); [lra|reflexivity]. }
+  assert (I2 : is_RInt (uniform_density a b) a b (scal (b - a) (1 / (b - a)))).
+  { apply is_RInt_ext with (f := fun _ => 1 / (b - a)); [|apply @is_RInt_const].
+    intros x Hx. rewrite Rmin_left, Rmax_right in Hx by lra. unfold uniform_density.
+    destruct (Rle_dec a x); [|lra]. destruct (Rle_dec x b); [reflexivity|lra]. }
+  assert (I3 : is_RInt (uniform_density a b) b hi (scal (hi - b) 0)).
+  { apply is_RInt_ext with (f := fun _ => 0); [|apply @is_RInt_const].
+    intros x Hx. rewrite Rmin_left, Rmax_right in Hx by lra. unfold uniform_density.
+    destruct (Rle_dec a x); [|reflexivity]. destruct (Rle_dec x b); [lra|reflexivity]. }
+  pose proof (is_RInt_Chasles _ _ _ _ _ _ I1 (is_RInt_Chasles _ _ _ _ _ _ I2 I3)) as I.
+  replace 1 with (plus (scal (a - lo) 0) (plus (scal (b - a) (1 / (b - a))) (scal (hi - b) 0))); [exact I|].
+  unfold plus, scal; simpl. unfold mult; simpl. field. lra.
+Qed.
+
+Lemma linear_piece_RInt : forall (k p u w : R),
+  is_RInt (fun x => k * (x - p)) u w (k * (w - p) ^ 2 / 2 - k * (u - p) ^ 2 / 2).
+Proof.
+  intros k p u w.
+  apply (is_RInt_derive (fun x => k * (x - p) ^ 2 / 2) (fun x => k * (x - p))).
+  - intros x _. auto_derive; [trivial|]. field.
+  - intros x _. apply (ex_derive_continuous (fun x => k * (x - p)) x). auto_derive. trivial.
+Qed.
+
+Lemma tri_piece1 : forall a b c x, a < c < b -> a < x < c ->
+  2 / ((b - a) * (c - a)) * (x - a) = triangular_density a b c x.
+Proof.
+  intros a b c x H1 H2. unfold triangular_density.
+  destruct (Rlt_dec x a); [lra|]. destruct (Rlt_dec x c); [|lra]. field. lra.
+Qed.
+Lemma tri_piece2 : forall a b c x, a < c < b -> c < x < b ->
+  - 2 / ((b - a) * (b - c)) * (x - b) = triangular_density a b c x.
+Proof.
+  intros a b c x H1 H2. unfold triangular_density.
+  destruct (Rlt_dec x a); [lra|]. destruct (Rlt_dec x c); [lra|].
+  destruct (Req_EM_T x c); [lra|]. destruct (Rle_dec x b); [|lra]. field. lra.
+Qed.
+
+(* T17g (triangular) *)
+Lemma triangular_integrates_to_one : forall a b c lo hi, a < c < b -> lo <= a -> b <= hi ->
+  is_RInt (triangular_density a b c) lo hi 1.
+Proof.
+  intros a b c lo hi [Hac Hcb] Hlo Hhi.
+  assert (I1 : is_RInt (triangular_density a b c) lo a (scal (a - lo) 0)).
+  { apply is_RInt_ext with (f := fun _ => 0); [|apply @is_RInt_const].
+    intros x Hx. rewrite Rmin_left, Rmax_right in Hx by lra. unfold triangular_density.
+    destruct (Rlt_dec x a); [reflexivity|lra]. }
+  assert (I2 : is_RInt (triangular_density a b c) a c
+                 (2 / ((b - a) * (c - a)) * (c - a) ^ 2 / 2 - 2 / ((b - a) * (c - a)) * (a - a) ^ 2 / 2)).
+  { apply is_RInt_ext with (f := fun x => 2 / ((b - a) * (c - a)) * (x - a)); [|apply linear_piece_RInt].
+    intros x Hx. rewrite Rmin_left, Rmax_right in Hx by lra. apply tri_piece1; lra. }
+  assert (I3 : is_RInt (triangular_density a b c) c b
+                 (- 2 / ((b - a) * (b - c)) * (b - b) ^ 2 / 2 - - 2 / ((b - a) * (b - c)) * (c - b) ^ 2 / 2)).
+  { apply is_RInt_ext with (f := fun x => - 2 / ((b - a) * (b - c)) * (x - b)); [|apply linear_piece_RInt].
+    intros x Hx. rewrite Rmin_left, Rmax_right in Hx by lra. apply tri_piece2; lra. }
+  assert (I4 : is_RInt (triangular_density a b c) b hi (scal (hi - b) 0)).
+  { apply is_RInt_ext with (f := fun _ => 0); [|apply @is_RInt_const].
+    intros x Hx. rewrite Rmin_left, Rmax_right in Hx by lra. unfold triangular_density.
+    destruct (Rlt_dec x a); [lra|]. destruct (Rlt_dec x c); [lra|].
+    destruct (Req_EM_T x c); [lra|]. destruct (Rle_dec x b); [lra|reflexivity]. }
+  pose proof (is_RInt_Chasles _ _ _ _ _ _ I1
+               (is_RInt_Chasles _ _ _ _ _ _ I2 (is_RInt_Chasles _ _ _ _ _ _ I3 I4))) as I.
+  match type of I with is_RInt _ _ _ ?v => replace 1 with v; [exact I|] end.
+  unfold plus, scal; simpl. unfold mult; simpl. field. lra.
+Qed.
+
+(* T17g (logistic): the CDF has derivative = the logistic density, limits 0 and 1 *)
+Lemma logistic_derivative : forall m s x, s <> 0 ->
+  is_derive (logistic_cdf m s) x (logistic_density m s x).
+Proof.
+  intros m s x Hs. pose proof (exp_pos (- (x - m) / s)) as EP.
+  unfold logistic_cdf, logistic_density. auto_derive.
+  - unfold Rminus, Rdiv in EP. lra.
+  - unfold Rminus, Rdiv in *. field. split; lra.
+Qed.
+
+Lemma logistic_limit_p : forall m s, 0 < s -> is_lim (logistic_cdf m s) p_infty 1.
+Proof.
+  intros m s Hs. apply is_lim_spec. intros eps. exists (m - s * ln eps). intros y Hy.
+  unfold logistic_cdf. set (e := exp (- (y - m) / s)).
+  assert (EP : 0 < e) by apply exp_pos.
+  assert (EL : e < eps).
+  { unfold e. rewrite <- (exp_ln eps) by apply cond_pos. apply exp_increasing.
+    apply Rmult_lt_reg_r with s; [assumption|]. unfold Rdiv. rewrite Rmult_assoc, Rinv_l by lra. lra. }
+  replace (1 / (1 + e) - 1) with (- (e / (1 + e))) by (field; lra).
+  rewrite Rabs_Ropp, Rabs_pos_eq.
+  - apply Rle_lt_trans with e; [|assumption].
+    apply Rmult_le_reg_r with (1 + e); [lra|]. unfold Rdiv. rewrite Rmult_assoc, Rinv_l by lra. nra.
+  - apply Rlt_le, Rdiv_lt_0_compat; lra.
+Qed.
+
+Lemma logistic_limit_m : forall m s, 0 < s -> is_lim (logistic_cdf m s) m_infty 0.
+Proof.
+  intros m s Hs. apply is_lim_spec. intros eps. exists (m + s * ln eps). intros y Hy.
+  unfold logistic_cdf. set (e := exp (- (y - m) / s)).
+  assert (EP : 0 < e) by apply exp_pos.
+  assert (EL : / eps < e).
+  { unfold e. rewrite <- (exp_ln eps) by apply cond_pos. rewrite <- exp_Ropp. apply exp_increasing.
+    apply Rmult_lt_reg_r with s; [assumption|]. unfold Rdiv. rewrite Rmult_assoc, Rinv_l by lra. lra. }
+  rewrite Rminus_0_r, Rabs_pos_eq by (apply Rlt_le, Rdiv_lt_0_compat; lra).
+  pose proof (cond_pos eps) as EPS.
+  apply Rmult_lt_reg_r with (1 + e); [lra|]. unfold Rdiv. rewrite Rmult_assoc, Rinv_l by lra.
+  assert (1 < eps * e).
+  { apply Rmult_lt_reg_l with (/ eps); [apply Rinv_0_lt_compat; assumption|].
+    rewrite <- Rmult_assoc, Rinv_l by lra. lra. }
+  nra.
+Qed.
+
+(* ------------------------------------------------------------------ normal / lognormal (partial)
+   The Gaussian integral enters as hypotheses on a function Phi: it is an antiderivative of the
+   standard normal density and tends to 0 and 1 at -oo and +oo.  (Equivalent to
+   int exp(-t^2/2) dt = sqrt(2 pi); not proved here.) *)
+Section Gauss.
+  Variable Phi : R -> R.
+  Hypothesis Phi_derive : forall z, is_derive Phi z (exp (- (z ^ 2 / 2)) / sqrt (2 * PI)).
+  Hypothesis Phi_p : is_lim Phi p_infty 1.
+  Hypothesis Phi_m : is_lim Phi m_infty 0.
+
+  Lemma normal_antiderivative : forall m s x, 0 < s ->
+    is_derive (fun t => Phi ((t - m) / s)) x (normal_density m s x).
+  Proof.
+    intros m s x Hs. pose proof sqrt2pi_pos as SP.
+    evar_last.
+    - apply (is_derive_comp Phi (fun t => (t - m) / s)).
+      + apply Phi_derive.
+      + auto_derive; [trivial|reflexivity].
+    - unfold normal_density, scal; simpl; unfold mult; simpl.
+      match goal with |- _ * (exp ?a / _) = _ * exp ?b => replace a with b by (field; lra) end.
+      field. split; lra.
+  Qed.
+
+  Lemma normal_density_continuous : forall m s x, 0 < s -> continuous (normal_density m s) x.
+  Proof.
+    intros m s x Hs. pose proof sqrt2pi_pos as SP.
+    apply (ex_derive_continuous (normal_density m s) x). unfold normal_density. auto_derive.
+    repeat split; trivial; try lra; try (apply Rgt_not_eq; nra).
+  Qed.
+
+  Lemma normal_integral : forall m s lo hi, 0 < s ->
+    is_RInt (normal_density m s) lo hi (Phi ((hi - m) / s) - Phi ((lo - m) / s)).
+  Proof.
+    intros m s lo hi Hs.
+    apply (is_RInt_derive (fun t => Phi ((t - m) / s)) (normal_density m s)).
+    - intros x _. apply normal_antiderivative; assumption.
+    - intros x _. apply normal_density_continuous; assumption.
+  Qed.
+
+  (* T17g (normal, partial): the integral over [lo, hi] tends to 1 *)
+  Theorem normal_integrates_to_one_partial : forall m s, 0 < s ->
+    forall eps : posreal, exists M, forall lo hi, lo < - M -> M < hi ->
+      Rabs (RInt (normal_density m s) lo hi - 1) < eps.
+  Proof.
+    intros m s Hs eps. pose proof (cond_pos eps) as EP.
+    apply is_lim_spec in Phi_p. apply is_lim_spec in Phi_m.
+    destruct (Phi_p (mkposreal (eps / 2) ltac:(lra))) as [Mp Hp].
+    destruct (Phi_m (mkposreal (eps / 2) ltac:(lra))) as [Mm Hm]. simpl in Hp, Hm.
+    exists (Rmax (Rabs (m + s * Mp)) (Rabs (m + s * Mm))). intros lo hi Hlo Hhi.
+    rewrite (is_RInt_unique _ _ _ _ (normal_integral m s lo hi Hs)).
+    assert (A : Mp < (hi - m) / s).
+    { apply Rmult_lt_reg_r with s; [assumption|]. unfold Rdiv. rewrite Rmult_assoc, Rinv_l by lra.
+      pose proof (Rmax_l (Rabs (m + s * Mp)) (Rabs (m + s * Mm))). pose proof (Rle_abs (m + s * Mp)). lra. }
+    assert (B : (lo - m) / s < Mm).
+    { apply Rmult_lt_reg_r with s; [assumption|]. unfold Rdiv. rewrite Rmult_assoc, Rinv_l by lra.
+      pose proof (Rmax_r (Rabs (m + s * Mp)) (Rabs (m + s * Mm))).
+      pose proof (Rle_abs (- (m + s * Mm))). rewrite Rabs_Ropp in H0. lra. }
+    specialize (Hp _ A). specialize (Hm _ B). rewrite Rminus_0_r in Hm.
+    replace (Phi ((hi - m) / s) - Phi ((lo - m) / s) - 1)
+      with ((Phi ((hi - m) / s) - 1) + - Phi ((lo - m) / s)) by ring.
+    eapply Rle_lt_trans; [apply Rabs_triang|]. rewrite Rabs_Ropp. lra.
+  Qed.
+
+  (* lognormal: antiderivative Phi((ln x - m)/s) on x > 0 *)
+  Lemma lognormal_antiderivative : forall m s x, 0 < s -> 0 < x ->
+    is_derive (fun t => Phi ((ln t - m) / s)) x (lognormal_density m s x).
+  Proof.
+    intros m s x Hs Hx. pose proof sqrt2pi_pos as SP.
+    evar_last.
+    - apply (is_derive_comp Phi (fun t => (ln t - m) / s)).
+      + apply Phi_derive.
+      + auto_derive; [assumption|reflexivity].
+    - unfold lognormal_density. destruct (Rlt_dec 0 x); [|contradiction].
+      unfold scal; simpl; unfold mult; simpl.
+      match goal with |- _ * (exp ?a / _) = _ * exp ?b => replace a with b by (field; lra) end.
+      field. repeat split; lra.
+  Qed.
+
+  Lemma lognormal_density_continuous : forall m s x, 0 < s -> 0 < x ->
+    continuous (lognormal_density m s) x.
+  Proof.
+    intros m s x Hs Hx. pose proof sqrt2pi_pos as SP.
+    apply continuous_ext_loc with
+      (g := fun x => 1 / (x * s * sqrt (2 * PI)) * exp (- ((ln x - m) ^ 2 / (2 * s ^ 2)))).
+    - exists (mkposreal x Hx). intros y By.
+      assert (Hy : Rabs (y - x) < x) by exact By. apply Rabs_def2 in Hy.
+      unfold lognormal_density. destruct (Rlt_dec 0 y); [reflexivity|lra].
+    - apply (ex_derive_continuous
+               (fun x => 1 / (x * s * sqrt (2 * PI)) * exp (- ((ln x - m) ^ 2 / (2 * s ^ 2)))) x).
+      auto_derive. repeat split; trivial; try lra; try (apply Rgt_not_eq; nra);
+        try (apply Rgt_not_eq; apply Rmult_lt_0_compat; [apply Rmult_lt_0_compat|]; lra).
+  Qed.
+
+  Theorem lognormal_integral_partial : forall m s lo hi, 0 < s -> 0 < lo -> lo <= hi ->
+    is_RInt (lognormal_density m s) lo hi (Phi ((ln hi - m) / s) - Phi ((ln lo - m) / s)).
+  Proof.
+    intros m s lo hi Hs Hlo Hhi.
+    apply (is_RInt_derive (fun t => Phi ((ln t - m) / s)) (lognormal_density m s)).
+    - intros x Hx. rewrite Rmin_left in Hx by assumption.
+      apply lognormal_antiderivative; [assumption|lra].
+    - intros x Hx. rewrite Rmin_left in Hx by assumption.
+      apply lognormal_density_continuous; [assumption|lra].
+  Qed.
+End Gauss.
+
+(* ================================================================== segmentation.py *)
+Open Scope string_scope.
+Definition seg_keep (ref : string) (vc : Z * string) : bool := negb (String.eqb (snd vc) ref).
+
+(* sum of the shifts of one segmentation, given the value xval of its variable *)
+Definition seg_shift (bv : string -> R) (bname : string) (s : seg_tuple) (ref : string) (xval : R) : R :=
+  rsum (map (fun vc : Z * string => bv (bname ++ "_" ++ snd vc) * b2R (Reqb' xval (IZR (fst vc))))
+            (filter (seg_keep ref) (sg_map s))).
+
+Fixpoint seg_total (bv xv : string -> R) (bname : string) (segs : list seg_tuple) : R :=
+  match segs with
+  | [] => 0
+  | s :: r => match seg_reference s with
+              | Some ref => seg_shift bv bname s ref (xv (sg_var s))
+              | None => 0
+              end + seg_total bv xv bname r
+  end.
+
+Lemma rsum_app : forall l1 l2, rsum (l1 ++ l2) = rsum l1 + rsum l2.
+Proof. induction l1; intros; simpl; [ring|]. unfold rsum in *. rewrite IHl1. ring. Qed.
+
+Section Seg.
+  Variable Phi : R -> R.
+  Variable en : env.
+  Variables bv xv : string -> R.
+  Hypothesis HB : forall n, e_beta en n = Some (bv n).
+  Hypothesis HV : forall n, e_var en n = Some (xv n).
+  Variable bname : string.
+  Variable fixed : bool.
+
+  Lemma ev_seg_terms : forall s ref,
+    map (fun e => evalX Phi e en) (seg_terms bname fixed s ref)
+    = map XR (map (fun vc : Z * string => bv (bname ++ "_" ++ snd vc) * b2R (Reqb' (xv (sg_var s)) (IZR (fst vc))))
+                  (filter (seg_keep ref) (sg_map s))).
+  Proof.
+    intros s ref. unfold seg_terms. fold (seg_keep ref).
+    induction (filter (seg_keep ref) (sg_map s)) as [|vc l IH]; [reflexivity|].
+    cbn [map]. rewrite IH. f_equal.
+    autorewrite with evx. rewrite HB, HV. unfold ENumI. rewrite ev_num, D2R_ENumI. reflexivity.
+  Qed.
+
+  Lemma ev_seg_all : forall segs l,
+    seg_all_terms bname fixed segs = Some l ->
+    exists ws, map (fun e => evalX Phi e en) l = map XR ws /\ rsum ws = seg_total bv xv bname segs.
+  Proof.
+    induction segs as [|s r IH]; intros l H.
+    - injection H as <-. exists []. split; reflexivity.
+    - cbn [seg_all_terms] in H. destruct (seg_reference s) as [ref|] eqn:ER; [|discriminate].
+      destruct (seg_all_terms bname fixed r) as [l'|] eqn:EL; [|discriminate].
+      injection H as <-. destruct (IH l' eq_refl) as [ws [H1 H2]].
+      eexists. split.
+      + rewrite map_app, ev_seg_terms, H1, <- map_app. reflexivity.
+      + rewrite rsum_app, H2. cbn [seg_total]. rewrite ER. reflexivity.
+  Qed.
+
+  (* the segmented parameter is beta_ref + the sum over the segmentations of their shifts *)
+  Theorem segmented_beta_value : forall segs tree,
+    segmented_beta bname fixed segs = Some tree ->
+    evalX Phi tree en = XR (bv bname + seg_total bv xv bname segs).
+  Proof.
+    intros segs tree H. unfold segmented_beta in H.
+    destruct (seg_all_terms bname fixed segs) as [l|] eqn:EL; [|discriminate].
+    injection H as <-. destruct (ev_seg_all segs l EL) as [ws [H1 H2]].
+    rewrite ev_multsum. cbn [map]. rewrite H1, ev_beta, HB. cbn [of_opt].
+    change (XR (bv bname) :: map XR ws) with (map XR (bv bname :: ws)).
+    rewrite xsum_XR. cbn [rsum fold_right]. fold (rsum ws). rewrite H2. reflexivity.
+  Qed.
+End Seg.
+
+(* what one shift is, for distinct segment values: beta_k in segment k, 0 in the reference
+   segment and for a value that is not a key of the mapping *)
+Lemma seg_pick_zero : forall (g : Z * string -> R) p (M : list (Z * string)) vk,
+  ~ In vk (map fst M) ->
+  rsum (map (fun vc => g vc * b2R (Reqb' (IZR vk) (IZR (fst vc)))) (filter p M)) = 0.
+Proof.
+  induction M as [|[v c] M IH]; intros vk NI; [reflexivity|].
+  cbn [filter]. assert (v <> vk) by (intro; apply NI; left; assumption).
+  assert (NI' : ~ In vk (map fst M)) by (intro; apply NI; right; assumption).
+  destruct (p (v, c)); [|apply IH; assumption].
+  cbn [map rsum fold_right fst]. fold (rsum (map (fun vc => g vc * b2R (Reqb' (IZR vk) (IZR (fst vc)))) (filter p M))).
+  rewrite IH by assumption. rewrite Reqb'_false by (intro E; apply eq_IZR in E; congruence).
+  simpl. ring.
+Qed.
+
+Lemma seg_pick : forall (g : Z * string -> R) p (M : list (Z * string)) vk ck,
+  NoDup (map fst M) -> In (vk, ck) M ->
+  rsum (map (fun vc => g vc * b2R (Reqb' (IZR vk) (IZR (fst vc)))) (filter p M))
+  = if p (vk, ck) then g (vk, ck) else 0.
+Proof.
+  induction M as [|[v c] M IH]; intros vk ck ND HI; [contradiction|].
+  cbn [map fst] in ND. inversion ND as [|? ? NI ND']; subst.
+  destruct HI as [E|HI].
+  - injection E as -> ->. cbn [filter]. destruct (p (vk, ck)).
+    + cbn [map rsum fold_right fst].
+      fold (rsum (map (fun vc => g vc * b2R (Reqb' (IZR vk) (IZR (fst vc)))) (filter p M))).
+      rewrite seg_pick_zero by assumption. rewrite Reqb'_true by reflexivity. simpl. ring.
+    + apply seg_pick_zero; assumption.
+  - assert (v <> vk).
+    { intro; subst. apply NI. change vk with (fst (vk, ck)). apply in_map. assumption. }
+    cbn [filter]. destruct (p (v, c)); [|apply IH; assumption].
+    cbn [map rsum fold_right fst].
+    fold (rsum (map (fun vc => g vc * b2R (Reqb' (IZR vk) (IZR (fst vc)))) (filter p M))).
+    rewrite (IH vk ck ND' HI). rewrite Reqb'_false by (intro E; apply eq_IZR in E; congruence).
+    simpl. ring.
+Qed.
+
+(* T17i *)
+Theorem segmentation_value : forall Phi en bv xv bname fixed s ref vk ck,
+  (forall n, e_beta en n = Some (bv n)) -> (forall n, e_var en n = Some (xv n)) ->
+  NoDup (map fst (sg_map s)) -> seg_reference s = Some ref ->
+  xv (sg_var s) = IZR vk -> In (vk, ck) (sg_map s) ->
+  exists tree, segmented_beta bname fixed [s] = Some tree /\
+    evalX Phi tree en =
+    XR (if String.eqb ck ref then bv bname else bv bname + bv (bname ++ "_" ++ ck)).
+Proof.
+  intros Phi en bv xv bname fixed s ref vk ck HB HV ND ER EX HI.
+  unfold segmented_beta. cbn [seg_all_terms]. rewrite ER.
+  eexists; split; [reflexivity|].
+  rewrite (segmented_beta_value Phi en bv xv HB HV bname fixed [s] _) by
+    (unfold segmented_beta; cbn [seg_all_terms]; rewrite ER; reflexivity).
+  f_equal. cbn [seg_total]. rewrite ER. unfold seg_shift. rewrite EX.
+  rewrite (seg_pick (fun vc => bv (bname ++ "_" ++ snd vc)) (seg_keep ref) (sg_map s) vk ck ND HI).
+  unfold seg_keep. cbn [snd]. destruct (String.eqb ck ref); simpl; ring.
+Qed.
+
+Theorem segmentation_value_other : forall Phi en bv xv bname fixed s ref vk,
+  (forall n, e_beta en n = Some (bv n)) -> (forall n, e_var en n = Some (xv n)) ->
+  seg_reference s = Some ref -> xv (sg_var s) = IZR vk -> ~ In vk (map fst (sg_map s)) ->
+  exists tree, segmented_beta bname fixed [s] = Some tree /\ evalX Phi tree en = XR (bv bname).
+Proof.
+  intros Phi en bv xv bname fixed s ref vk HB HV ER EX NI.
+  unfold segmented_beta. cbn [seg_all_terms]. rewrite ER.
+  eexists; split; [reflexivity|].
+  rewrite (segmented_beta_value Phi en bv xv HB HV bname fixed [s] _) by
+    (unfold segmented_beta; cbn [seg_all_terms]; rewrite ER; reflexivity).
+  f_equal. cbn [seg_total]. rewrite ER. unfold seg_shift. rewrite EX.
+  rewrite seg_pick_zero by assumption. ring.
+Qed.
+Close Scope string_scope.
+
+(* ================================================================== nests.py: correlation *)
+Lemma nl_corr_entry_formula : forall mu mu_m,
+  nl_corr_entry mu mu_m = 1 - (mu * mu) / (mu_m * mu_m).
+Proof.
+  intros mu mu_m. unfold nl_corr_entry, Reqb. destruct (Req_EM_T mu 1) as [->|]; [|reflexivity].
+  f_equal. f_equal. ring.
+Qed.
+Lemma nl_corr_entry_mu1 : forall mu_m, nl_corr_entry 1 mu_m = 1 - 1 / (mu_m * mu_m).
+Proof.
+  intros mu_m. unfold nl_corr_entry, Reqb. destruct (Req_EM_T 1 1); [reflexivity|contradiction].
+Qed.
+
+Definition nl_both (i j : Z) (m : R * list Z) : bool :=
+  in_Z i (snd m) && in_Z j (snd m) && negb (i =? j)%Z.
+
+Lemma nl_fold_last : forall (entry : R -> R) i j v nests acc,
+  (forall m, In m nests -> nl_both i j m = true -> entry (fst m) = v) ->
+  (acc = v \/ exists m, In m nests /\ nl_both i j m = true) ->
+  fold_left (fun acc (m : R * list Z) => if nl_both i j m then entry (fst m) else acc) nests acc = v.
+Proof.
+  induction nests as [|m r IH]; intros acc H1 H2.
+  - destruct H2 as [H2|[m [[] _]]]. exact H2.
+  - cbn [fold_left]. apply IH.
+    + intros m' Hm'. apply H1. right; assumption.
+    + destruct (nl_both i j m) eqn:E.
+      * left. apply H1; [left; reflexivity|assumption].
+      * destruct H2 as [H2|[m0 [[->|Hin] Hb]]]; [left; assumption|congruence|right; eauto].
+Qed.
+
+Lemma nl_fold_none : forall (entry : R -> R) i j nests acc,
+  (forall m, In m nests -> nl_both i j m = false) ->
+  fold_left (fun acc (m : R * list Z) => if nl_both i j m then entry (fst m) else acc) nests acc = acc.
+Proof.
+  induction nests as [|m r IH]; intros acc H; [reflexivity|].
+  cbn [fold_left]. rewrite (H m (or_introl eq_refl)). apply IH. intros; apply H; right; assumption.
+Qed.
+
+(* T17j *)
+Theorem nested_correlation_diagonal : forall entry nests i, nl_correlation entry nests i i = 1.
+Proof.
+  intros entry nests i. unfold nl_correlation.
+  replace (if (i =? i)%Z then 1 else 0) with 1 by (rewrite Z.eqb_refl; reflexivity).
+  apply (nl_fold_none entry i i nests 1). intros m _. unfold nl_both. rewrite Z.eqb_refl. cbn [negb]. apply andb_false_r.
+Qed.
+
+Theorem nested_correlation_within : forall mu nests i j mu_m alts,
+  i <> j -> In (mu_m, alts) nests -> in_Z i alts = true -> in_Z j alts = true ->
+  (* the nests are disjoint: any nest containing both i and j carries the same parameter *)
+  (forall m, In m nests -> in_Z i (snd m) = true -> in_Z j (snd m) = true -> fst m = mu_m) ->
+  nl_correlation (nl_corr_entry mu) nests i j = 1 - (mu * mu) / (mu_m * mu_m).
+Proof.
+  intros mu nests i j mu_m alts Hij Hin Hi Hj Hd. unfold nl_correlation.
+  rewrite <- nl_corr_entry_formula.
+  apply (nl_fold_last (nl_corr_entry mu) i j (nl_corr_entry mu mu_m) nests).
+  - intros m Hm Hb. unfold nl_both in Hb. apply andb_prop in Hb. destruct Hb as [Hb _].
+    apply andb_prop in Hb. destruct Hb as [B1 B2]. rewrite (Hd m Hm B1 B2). reflexivity.
+  - right. exists (mu_m, alts). split; [assumption|]. unfold nl_both. cbn [snd]. rewrite Hi, Hj.
+    destruct (Z.eqb_spec i j); [contradiction|reflexivity].
+Qed.
+
+Corollary nested_correlation_within_mu1 : forall nests i j mu_m alts,
+  i <> j -> In (mu_m, alts) nests -> in_Z i alts = true -> in_Z j alts = true ->
+  (forall m, In m nests -> in_Z i (snd m) = true -> in_Z j (snd m) = true -> fst m = mu_m) ->
+  nl_correlation (nl_corr_entry 1) nests i j = 1 - 1 / (mu_m * mu_m).
+Proof.
+  intros. rewrite (nested_correlation_within 1 nests i j mu_m alts) by assumption.
+  f_equal. f_equal. ring.
+Qed.
+
+Theorem nested_correlation_across : forall entry nests i j,
+  i <> j -> (forall m, In m nests -> in_Z i (snd m) && in_Z j (snd m) = false) ->
+  nl_correlation entry nests i j = 0.
+Proof.
+  intros entry nests i j Hij H. unfold nl_correlation.
+  replace (if (i =? j)%Z then 1 else 0) with 0 by (destruct (Z.eqb_spec i j); [contradiction|reflexivity]).
+  apply (nl_fold_none entry i j nests 0). intros m Hm. unfold nl_both. rewrite (H m Hm). reflexivity.
+Qed.
+
+(* ------------------------------------------------------------------ boxcox with a Python float l *)
+Section BoxCoxFloat.
+  Variable Phi : R -> R.
+  Variable en : env.
+  Variable x : expr.
+  Variable vx : R.
+  Variables c c2 c3 : dyadic.
+  Hypothesis Hx : evalX Phi x en = XR vx.
+  Notation ev e := (evalX Phi e en) (only parsing).
+
+  Lemma ev_bcf_close :
+    ev (EBin Times (EBin Gt (ENumD c_1em5) (ENumD c)) (EBin Lt (EUn UMinus (ENumD c_1em5)) (ENumD c)))
+    = XR (b2R (Rltb' (D2R c) bc_eps) * b2R (Rltb' (- bc_eps) (D2R c))).
+  Proof. autorewrite with evx. reflexivity. Qed.
+
+  Lemma boxcox_float_regular : 0 < vx -> (D2R c <= - bc_eps \/ bc_eps <= D2R c) ->
+    ev (boxcox_float x c c2 c3) = XR ((Rpower vx (D2R c) - 1) / D2R c).
+  Proof.
+    intros Hpos Hband. pose proof bc_eps_pos as EP.
+    unfold boxcox_float. rewrite ev_elem. cbn [map fst snd].
+    rewrite ev_bin, Hx, ev_ENumZ, D2R_0. cbn [xbin lift2]. rewrite Reqb'_false by lra.
+    cbn [b2R]. rewrite xelem2_0.
+    rewrite ev_elem. cbn [map fst snd]. rewrite ev_bcf_close.
+    assert (K : b2R (Rltb' (D2R c) bc_eps) * b2R (Rltb' (- bc_eps) (D2R c)) = 0).
+    { destruct Hband; [rewrite (Rltb'_false (- bc_eps) (D2R c)) by lra | rewrite (Rltb'_false (D2R c) bc_eps) by lra];
+        simpl; ring. }
+    rewrite K, xelem2_0.
+    rewrite ev_bin, ev_bin, ev_powc, Hx, xpowc_pos, ev_num, ev_ENum, D2R_1 by assumption.
+    cbn [xbin lift2]. rewrite Rnz_true by lra. reflexivity.
+  Qed.
+
+  (* the coefficients of l^2 and l^3 are the doubles Python computed for c**2 and c**3 *)
+  Lemma boxcox_float_series : 0 < vx -> - bc_eps < D2R c < bc_eps ->
+    ev (boxcox_float x c c2 c3)
+    = XR (bc_coeff 0 vx + bc_coeff 1 vx * D2R c + bc_coeff 2 vx * D2R c2 + bc_coeff 3 vx * D2R c3).
+  Proof.
+    intros Hpos Hband.
+    unfold boxcox_float. rewrite ev_elem. cbn [map fst snd].
+    rewrite ev_bin, Hx, ev_ENumZ, D2R_0. cbn [xbin lift2]. rewrite Reqb'_false by lra.
+    cbn [b2R]. rewrite xelem2_0.
+    rewrite ev_elem. cbn [map fst snd]. rewrite ev_bcf_close.
+    rewrite !Rltb'_true by lra. cbn [b2R]. rewrite Rmult_1_l, xelem2_1.
+    unfold boxcox_series. autorewrite with evx. rewrite Hx.
+    cbn [xun]. rewrite Rltb'_true by assumption.
+    cbn [xpowc dyadic_is_int Z.leb Z.mul Z.pow Z.pow_pos Pos.iter Pos.mul Z.compare xbin lift2].
+    rewrite D2R_2, D2R_6, D2R_24. rewrite !Rnz_true by lra. cbn [lift2]. f_equal.
+    unfold bc_coeff. simpl. field.
+  Qed.
+End BoxCoxFloat.
+
+(* ================================================================== statements used by Properties/C17.v *)
+Lemma lognormal_tree_value : forall m s x, 0 < x -> 0 < s ->
+  npdf_c k_sqrt2pi m s (ln x) / x = lognormal_density m s x * (sqrt (2 * PI) / k_sqrt2pi).
+Proof.
+  intros m s x Hx Hs. pose proof k_sqrt2pi_pos as KP. pose proof sqrt2pi_pos as SP.
+  rewrite npdf_c_ratio by lra. unfold lognormal_density, normal_density.
+  destruct (Rlt_dec 0 x); [|contradiction]. field. repeat split; lra.
+Qed.
+
+Lemma normalpdf_textbook : forall Phi en x mu s vx vm vs,
+  evalX Phi x en = XR vx -> evalX Phi mu en = XR vm -> evalX Phi s en = XR vs -> 0 < vs ->
+  exists r, evalX Phi (normalpdf x mu s) en = XR r /\
+    r = normal_density vm vs vx * (sqrt (2 * PI) / k_sqrt2pi) /\
+    Rabs (r - normal_density vm vs vx) <= 2 / 10 ^ 10 * normal_density vm vs vx.
+Proof.
+  intros Phi en x mu s vx vm vs Hx Hm Hs P. exists (npdf_c k_sqrt2pi vm vs vx).
+  pose proof k_sqrt2pi_pos as KP.
+  exact (conj (normalpdf_tree Phi en x mu s vx vm vs Hx Hm Hs (Rgt_not_eq _ _ P))
+          (conj (npdf_c_ratio k_sqrt2pi vm vs vx (Rgt_not_eq _ _ P) (Rgt_not_eq _ _ KP))
+                (npdf_constant_error vm vs vx P))).
+Qed.
+
+Lemma lognormalpdf_textbook : forall Phi en x mu s vx vm vs,
+  evalX Phi x en = XR vx -> evalX Phi mu en = XR vm -> evalX Phi s en = XR vs ->
+  0 < vx -> 0 < vs ->
+  evalX Phi (lognormalpdf x mu s) en
+  = XR (lognormal_density vm vs vx * (sqrt (2 * PI) / k_sqrt2pi)).
+Proof.
+  intros Phi en x mu s vx vm vs Hx Hm Hs Px Ps.
+  rewrite (lognormalpdf_tree Phi en x mu s vx vm vs Hx Hm Hs Px (Rgt_not_eq _ _ Ps)).
+  exact (f_equal XR (lognormal_tree_value vm vs vx Px Ps)).
+Qed.
+
+Lemma logistic_cdf_props : forall m s, 0 < s ->
+  (forall x, is_derive (logistic_cdf m s) x (logistic_density m s x)) /\
+  is_lim (logistic_cdf m s) m_infty 0 /\ is_lim (logistic_cdf m s) p_infty 1.
+Proof.
+  exact (fun m s P => conj (fun x => logistic_derivative m s x (Rgt_not_eq _ _ P))
+                        (conj (logistic_limit_m m s P) (logistic_limit_p m s P))).
+Qed.
+
+Lemma regression_normal : forall Phi en meas model sigma vy vm vs,
+  evalX Phi meas en = XR vy -> evalX Phi model en = XR vm -> evalX Phi sigma en = XR vs -> 0 < vs ->
+  exists r, evalX Phi (loglikelihoodregression meas model sigma) en = XR r /\
+            evalX Phi (likelihoodregression meas model sigma) en = XR (exp r) /\
+            Rabs (r - ln (normal_density vm vs vy)) <= 1 / 10 ^ 11.
+Proof.
+  intros Phi en meas model sigma vy vm vs Hy Hm Hs P. eexists.
+  exact (conj (regression_tree Phi en meas model sigma vy vm vs Hy Hm Hs (Rgt_not_eq _ _ P))
+          (conj (likelihoodregression_tree Phi en meas model sigma vy vm vs Hy Hm Hs (Rgt_not_eq _ _ P))
+                (regression_is_normal_logdensity vy vm vs P))).
+Qed.
+
+Lemma boxcox_continuity_summary : forall x,
+  continuous (bc_value x) 0 /\ bc_value x 0 = ln x /\ is_lim (bc_value x) 0 (ln x).
+Proof.
+  exact (fun x => conj (boxcox_continuous_at_zero x) (conj (bc_value_zero x) (boxcox_value_limit x))).
+Qed.
